@@ -391,3 +391,49 @@ func (m *monitor) precedence() {
 	c.Set("precedence_line_orders", len(orders))
 	c.Floor("precedence_facts_checked", int64(len(orders)*40))
 }
+
+// redirOnPlainTwin: one server block listing a plain and a TLS address of the
+// same site, with `tls` and `redir` in either line order. The redirect comes
+// before the content handlers on BOTH addresses (what `tls` means for the
+// plain address is only settled after all directives have been set up).
+func (m *monitor) redirOnPlainTwin() {
+	c := m.ctx
+	crt, key, _ := lib.MintCert(m.dir, "c09-twin", []string{"c09.test", "127.0.0.1"})
+	for oi, lines := range [][]string{
+		{"root " + m.root, "tls " + crt + " " + key, "redir /moved.txt /elsewhere 302"},
+		{"redir /moved.txt /elsewhere 302", "root " + m.root, "tls " + crt + " " + key},
+	} {
+		var lastErr error
+		for attempt := 0; attempt < 5; attempt++ {
+			ports := lib.FreePorts(2)
+			text := fmt.Sprintf("http://127.0.0.1:%d, https://127.0.0.1:%d {\n\tbind 127.0.0.1\n\t%s\n}\n", ports[0], ports[1], strings.Join(lines, "\n\t"))
+			m.startMu.Lock()
+			inst, err := lib.Start(text, "Casketfile-twin")
+			m.startMu.Unlock()
+			if err != nil {
+				lastErr = err
+				if bindErr(err) {
+					continue
+				}
+				break
+			}
+			lastErr = nil
+			r := lib.Once(fmt.Sprintf("127.0.0.1:%d", ports[0]), "GET", "/moved.txt", fmt.Sprintf("127.0.0.1:%d", ports[0]))
+			lib.StopWait(inst)
+			c.Eval(1)
+			c.Count("precedence_facts_checked", 1)
+			c.Nontrivial(fmt.Sprintf("prec/redir-on-plain-twin/%d", oi))
+			switch {
+			case r.Err != nil:
+				c.Inconclusive("plain/TLS twin: " + r.Err.Error())
+			case r.Status != 302:
+				c.Violation("C09/precedence/redir-before-content/plain-twin-of-a-tls-block", fmt.Sprintf("GET /moved.txt on the plain address of a block that also lists an https:// address was answered %d by a content handler; `redir /moved.txt /elsewhere 302` comes first (line order %d)", r.Status, oi),
+					map[string]interface{}{"casketfile": text, "status": r.Status, "body": trunc(string(r.Body), 200)})
+			}
+			break
+		}
+		if lastErr != nil {
+			c.Inconclusive("plain/TLS twin: does not load: " + lastErr.Error())
+		}
+	}
+}
